@@ -91,7 +91,14 @@ C03(t) ==
                     /\ Chk(r.bodylen <= t.req.num.size, "C03|" \o o \o "|dirents|exceeds-size", <<r.bodylen, t.req.num.size>>)
                     /\ DirentsOK(o, v.offered, r.dirents, 0, t.req.num.size, o = "READDIRPLUS")
 
-(* ---------------- C01: framing of well-formed requests ---------------- *)
+(* ---------------- C01: framing ---------------- *)
+\* request classes exported from WireFrame.tla carry their class record: the A-level predicates of that
+\* module, restated on the logged record
+ClsWellFormed(c) == c.sup = "ge40" /\ c.lenf = "eq" /\ c.body = "ok" /\ c.op # "HOLE"
+                    /\ (c.op \in {"SETUPMAPPING", "REMOVEMAPPING"} => c.vu)
+ClsNeedsReply(c) == c.op \notin {"FORGET", "BATCH_FORGET", "INTERRUPT"} /\ ~(c.op = "NOTIFY_REPLY" /\ c.fsres = "ok")
+\* agreement of the observed outcome with the outcome WireFrame (the I-level model) predicts: a
+\* disagreement is model drift, not a violation
 C01(t) ==
   LET o == t.op  r == t.reply  out == t.out IN
   /\ Chk(out.ret # "panic", "C01|" \o o \o "|panic", out)
@@ -100,6 +107,8 @@ C01(t) ==
   /\ Chk(out.tail_untouched, "C01|" \o o \o "|reply-tail-touched|" \o t.tr, out)
   /\ o \notin {"FORGET", "BATCH_FORGET"} \/ Chk(out.nmsgs = 0, "C01|" \o o \o "|reply-to-forget", out.msglens)
   /\ ~(t.gen = "wf" /\ o \notin NoReplyOps) \/ Chk(out.nmsgs = 1, "C01|" \o o \o "|no-reply-to-wellformed|" \o t.tr, out)
+  /\ ~(t.gen = "class" /\ ClsWellFormed(t.x.cls) /\ ClsNeedsReply(t.x.cls) /\ t.x.cls.cap = "big")
+        \/ Chk(out.nmsgs = 1, "C01|" \o o \o "|no-reply-to-wellformed|" \o t.tr, <<t.x.cls, out>>)
   /\ out.nmsgs = 0 \/
      /\ Chk(~r.short /\ r.len = r.msglen, "C01|" \o o \o "|length-field", <<r.len, r.msglen>>)
      /\ r.short \/ Chk(r.unique = t.req.h.unique, "C01|" \o o \o "|unique", <<r.unique, t.req.h.unique>>)
@@ -119,11 +128,17 @@ C17(t) ==
   /\ Chk(got \subseteq want, "C17|" \o t.op \o "|untouched-page-dirty", <<got \ want, t.out.touched>>)
   /\ Chk(t.out.dirty_req = <<>>, "C17|" \o t.op \o "|request-page-dirty", t.out.dirty_req)
 
+Drift(t) == LET p == t.x.pred IN
+  IF p.nreply = t.out.nmsgs /\ p.ret = t.out.retc /\ p.fscalls = Len(NonRemap(t)) THEN TRUE
+  ELSE PrintT(<<"DRIFT", l, t.x.cls, p, t.out.ret, t.out.nmsgs>>)
+
 Init == l = 1
 Step ==
   /\ l <= Len(Rec)
   /\ LET t == Rec[l] IN
-     TRUE = (CASE t.e = "Tx" -> (C01(t) /\ C02(t) /\ C03(t) /\ C17(t))
+     TRUE = (CASE t.e = "Tx" /\ t.gen = "wf" -> (C01(t) /\ C02(t) /\ C03(t) /\ C17(t))
+               [] t.e = "Tx" /\ t.gen = "class" -> (C01(t) /\ C17(t) /\ Drift(t))
+               [] t.e = "Tx" -> (C01(t) /\ C17(t))
                [] OTHER -> TRUE)
   /\ l' = l + 1
 Done == l = Len(Rec) + 1 /\ PrintT(<<"ACCEPTED", Len(Rec)>>) /\ l' = l + 1
